@@ -113,7 +113,7 @@ void h_handleMidi(void)
                 V_ASSERT(c19_msgs_of_slot(i) == c19_expected_msgs(i), "C19 handleMidi: a bound controller drives its slot (one message per used parameter)");
 #ifndef NO_VALUE
                 float want = ctl.kind == LQ_CTL_CC ? (float)(val / 127.0) : (float)((reg1.valhi * 128 + reg1.vallo) / 16383.0);
-                V_ASSERT(post.cur[i] == v_f_bits(want), "C19 handleMidi: slot value = controller value scaled to 0..1");
+                V_ASSERT(post.cur[i] == c19_u(want), "C19 handleMidi: slot value = controller value scaled to 0..1");
 #endif
             } else
                 V_ASSERT(not_driven(i), "C19 handleMidi: a controller drives exactly its slot (others untouched)");
@@ -174,13 +174,13 @@ void h_setSlot(void)           /* setSlot(i, v) against its contract (contracts/
 #endif
 #ifdef FIXED_SLOT               /* one obligation per in-range slot index (constant: cheap symbolic execution) */
     V_ASSUME(IN.slot == FIXED_SLOT);
-    AutomationMgr_setSlot(&M, FIXED_SLOT, v_bits_f(IN.f));
+    AutomationMgr_setSlot(&M, FIXED_SLOT, c19_f(IN.f));
 #else                           /* out-of-range representatives */
     switch(IN.slot) {
-    case -1: AutomationMgr_setSlot(&M, -1, v_bits_f(IN.f)); break;
-    case NS: AutomationMgr_setSlot(&M, NS, v_bits_f(IN.f)); break;
-    case INT_MIN: AutomationMgr_setSlot(&M, INT_MIN, v_bits_f(IN.f)); break;
-    case INT_MAX: AutomationMgr_setSlot(&M, INT_MAX, v_bits_f(IN.f)); break;
+    case -1: AutomationMgr_setSlot(&M, -1, c19_f(IN.f)); break;
+    case NS: AutomationMgr_setSlot(&M, NS, c19_f(IN.f)); break;
+    case INT_MIN: AutomationMgr_setSlot(&M, INT_MIN, c19_f(IN.f)); break;
+    case INT_MAX: AutomationMgr_setSlot(&M, INT_MAX, c19_f(IN.f)); break;
     default: V_ASSUME(0);
     }
 #endif
@@ -195,7 +195,7 @@ void h_setSlotSub(void)
 {
     begin();
     V_COVER(in_range(IN.slot) && IN.sub >= 0 && IN.sub < PS && (IN.a_used[IN.slot][IN.sub] & 1) && IN.a_type[IN.slot][IN.sub] == 'T');
-    C19_SPLIT2(IN.slot, IN.sub, AutomationMgr_setSlotSub(&M, I, J, v_bits_f(IN.f)));
+    C19_SPLIT2(IN.slot, IN.sub, AutomationMgr_setSlotSub(&M, I, J, c19_f(IN.f)));
     frame_common();
     for(int i = 0; i < NS; i++) {
         V_ASSERT(post.cur[i] == pre.cur[i], "C19 setSlotSub: slot values untouched");
@@ -214,5 +214,5 @@ void NAME(void) { \
 }
 FRAME_NO_MSG(h_updateMapping,    C19_SPLIT2(IN.slot, IN.sub, AutomationMgr_updateMapping(&M, I, J)))
 FRAME_NO_MSG(h_clearSlotSub,     C19_SPLIT2C(IN.slot, IN.sub, AutomationMgr_clearSlotSub(&M, I, J)))
-FRAME_NO_MSG(h_setSlotSubGain,   C19_SPLIT2(IN.slot, IN.sub, AutomationMgr_setSlotSubGain(&M, I, J, v_bits_f(IN.f))))
-FRAME_NO_MSG(h_setSlotSubOffset, C19_SPLIT2(IN.slot, IN.sub, AutomationMgr_setSlotSubOffset(&M, I, J, v_bits_f(IN.f))))
+FRAME_NO_MSG(h_setSlotSubGain,   C19_SPLIT2(IN.slot, IN.sub, AutomationMgr_setSlotSubGain(&M, I, J, c19_f(IN.f))))
+FRAME_NO_MSG(h_setSlotSubOffset, C19_SPLIT2(IN.slot, IN.sub, AutomationMgr_setSlotSubOffset(&M, I, J, c19_f(IN.f))))
